@@ -272,6 +272,111 @@ inline const char* errName(DeserializationError e) {
   return "?";
 }
 
+// A small, independent JSON -> MessagePack transcoder for the texts of "deser" operations (plain JSON without
+// escapes): the same value can then reach the document through deserializeMsgPack.  Returns false for anything
+// it does not handle (the caller falls back to deserializeJson).  A repeated key keeps the position of its
+// first occurrence and the value of its last, as deserializeJson does.
+struct JsonToMsgPack {
+  const std::string& t;
+  size_t p = 0;
+  explicit JsonToMsgPack(const std::string& text) : t(text) {}
+  void ws() { while (p < t.size() && (t[p] == ' ' || t[p] == '\n' || t[p] == '\t' || t[p] == '\r')) p++; }
+  static void be(std::string& o, unsigned long long v, int n) { for (int i = n - 1; i >= 0; i--) o += char((v >> (8 * i)) & 255); }
+  static void str(std::string& o, const std::string& s) {
+    if (s.size() < 32) o += char(0xA0 + s.size());
+    else if (s.size() < 256) { o += char(0xD9); o += char(s.size()); }
+    else { o += char(0xDA); be(o, s.size(), 2); }
+    o += s;
+  }
+  bool string(std::string& s) {
+    if (p >= t.size() || t[p] != '"') return false;
+    p++;
+    while (p < t.size() && t[p] != '"') { if (t[p] == '\\') return false; s += t[p++]; }
+    if (p >= t.size()) return false;
+    p++;
+    return true;
+  }
+  bool value(std::string& o, int depth = 0) {
+    ws();
+    if (p >= t.size() || depth > 20) return false;
+    char c = t[p];
+    if (t.compare(p, 4, "null") == 0) { p += 4; o += char(0xC0); return true; }
+    if (t.compare(p, 4, "true") == 0) { p += 4; o += char(0xC3); return true; }
+    if (t.compare(p, 5, "false") == 0) { p += 5; o += char(0xC2); return true; }
+    if (c == '"') { std::string s; if (!string(s)) return false; str(o, s); return true; }
+    if (c == '[') {
+      p++;
+      std::vector<std::string> items;
+      ws();
+      if (p < t.size() && t[p] == ']') p++;
+      else for (;;) {
+        std::string e;
+        if (!value(e, depth + 1)) return false;
+        items.push_back(e);
+        ws();
+        if (p < t.size() && t[p] == ',') { p++; continue; }
+        if (p < t.size() && t[p] == ']') { p++; break; }
+        return false;
+      }
+      if (items.size() < 16) o += char(0x90 + items.size()); else { o += char(0xDC); be(o, items.size(), 2); }
+      for (auto& e : items) o += e;
+      return true;
+    }
+    if (c == '{') {
+      p++;
+      std::vector<std::pair<std::string, std::string>> ms;
+      ws();
+      if (p < t.size() && t[p] == '}') p++;
+      else for (;;) {
+        ws();
+        std::string k, e;
+        if (!string(k)) return false;
+        ws();
+        if (p >= t.size() || t[p] != ':') return false;
+        p++;
+        if (!value(e, depth + 1)) return false;
+        bool found = false;
+        for (auto& m : ms) if (m.first == k) { m.second = e; found = true; }
+        if (!found) ms.emplace_back(k, e);
+        ws();
+        if (p < t.size() && t[p] == ',') { p++; continue; }
+        if (p < t.size() && t[p] == '}') { p++; break; }
+        return false;
+      }
+      if (ms.size() < 16) o += char(0x80 + ms.size()); else { o += char(0xDE); be(o, ms.size(), 2); }
+      for (auto& m : ms) { str(o, m.first); o += m.second; }
+      return true;
+    }
+    // numbers: integers exactly, anything else as float 64
+    size_t q = p;
+    while (q < t.size() && (isdigit((unsigned char)t[q]) || t[q] == '-' || t[q] == '+' || t[q] == '.' || t[q] == 'e' || t[q] == 'E')) q++;
+    std::string lit = t.substr(p, q - p);
+    if (lit.empty()) return false;
+    p = q;
+    bool integral = lit.find_first_of(".eE") == std::string::npos;
+    if (integral && lit[0] == '-') {
+      if (lit.size() > 19) return false;
+      long long v = strtoll(lit.c_str(), nullptr, 10);
+      if (v >= -32) o += char(v & 255);
+      else { o += char(0xD3); be(o, (unsigned long long)v, 8); }
+    } else if (integral) {
+      if (lit.size() > 19) return false;
+      unsigned long long v = strtoull(lit.c_str(), nullptr, 10);
+      if (v < 128) o += char(v);
+      else if (v < 65536) { o += char(0xCD); be(o, v, 2); }
+      else { o += char(0xCF); be(o, v, 8); }
+    } else {
+      double d = strtod(lit.c_str(), nullptr);
+      unsigned long long bits;
+      memcpy(&bits, &d, 8);
+      o += char(0xCB);
+      be(o, bits, 8);
+    }
+    return true;
+  }
+  bool run(std::string& out) { if (!value(out)) return false; ws(); return p == t.size(); }
+};
+
 template <class T> struct IsDoc { static const bool value = false; };
 template <> struct IsDoc<JsonDocument> { static const bool value = true; };
 
@@ -450,10 +555,14 @@ inline std::string exec(World& w, const Op& o, Kinds& ks) {
   } else if (o.op == "deser") {
     withTarget(w, o.tb, o.ti, o.tp, ks, [&](auto&& T) {
       DeserializationError e;
-      unsigned how = ks.next(3);
+      unsigned how = ks.next(5);
+      std::string packed;
+      if (how >= 3 && !JsonToMsgPack(o.x).run(packed)) how = 2;
       if (how == 0) e = deserializeJson(T, intern(o.x));
       else if (how == 1) e = deserializeJson(T, std::string(o.x));
-      else e = deserializeJson(T, o.x.data(), o.x.size());
+      else if (how == 2) e = deserializeJson(T, o.x.data(), o.x.size());
+      else if (how == 3) { ks.log += 'M'; e = deserializeMsgPack(T, packed); }   // the same value as MessagePack
+      else { ks.log += 'M'; e = deserializeMsgPack(T, packed.data(), packed.size()); }
       ret = errName(e);
     });
   } else {
